@@ -57,6 +57,26 @@ def same_arrays(a, b):
     return a.shape == b.shape and a.dtype == b.dtype and bool(np.array_equal(a, b, equal_nan=True))
 
 
+def guarded(ctx, name, call, case, key):
+    """Run a library call whose array inputs may have been handed over read-only.  The unchanged code never writes into its inputs; a
+    change that does (an in-place "sanitising" step, say) raises on a read-only array instead of returning the estimates: that input
+    is a failing input."""
+    try:
+        return True, call()
+    except ValueError as e:
+        if "read-only" in str(e) or "readonly" in str(e):
+            ctx.fail("oracle", "%s writes into an input array (raised %r on a read-only input) instead of returning the estimates" % (name, str(e)[:80]),
+                     case, key=key + ":writes-to-input")
+            return False, None
+        raise
+
+
+def ro(arr, flag):
+    if flag:
+        arr.setflags(write=False)
+    return arr
+
+
 def nj(ctx, reason):
     ctx.not_judged += 1
     ctx.hist("not_judged", reason)
@@ -224,11 +244,18 @@ def stage_realise_case(ctx, case, exprs, meta):
         return
     ctx.count(dict(kind="realise", **case), nontrivial=(l != r and n >= 2))
     ctx.sample(dict(kind="realise", family=fam, l=l, r=r, br=br, n=n, ordmax=ordmax))
+    step = int(case.get("step", 1))
+    small["step"] = step
     routines = []
     H0 = H.copy()
-    for name, call in (("SSI_fast", lambda: ssi.SSI_fast(H, br, ordmax)[1:3]), ("SSI", lambda: ssi.SSI(H, br, ordmax)[0:2])):
+    ro(H, case.get("readonly"))
+    ctx.hist("stage.step", step)
+    for name, call in (("SSI_fast", lambda: ssi.SSI_fast(H, br, ordmax, step=step)[1:3]), ("SSI", lambda: ssi.SSI(H, br, ordmax, step=step)[0:2])):
         try:
-            AA, CC = call()
+            ok, out = guarded(ctx, name, call, small, "C01:%s" % name)
+            if not ok:
+                continue
+            AA, CC = out
             if not same_arrays(H, H0):
                 ctx.fail("oracle", "%s modified the Hankel matrix it was given" % name, small, key="C01:%s:input-modified" % name)
                 H = H0.copy()
@@ -243,24 +270,39 @@ def stage_realise_case(ctx, case, exprs, meta):
             ctx.fail("oracle", "%s raised LinAlgError on a rank-%d Hankel matrix with ordmax=%d" % (name, n, ordmax), small, key="C01:%s:raises" % name)
             continue
         routines.append((name, AA, CC))
+    # one (A, C) per requested order 0, step, 2 step, ... <= ordmax; entry k IS the realisation of model order k*step
+    nent = ordmax // step + 1
     for name, AA, CC in routines:
-        if len(AA) != ordmax + 1 or len(CC) != ordmax + 1:
-            ctx.fail("oracle", "%s returns %d/%d matrices for ordmax=%d (one per order 0..ordmax expected)" % (name, len(AA), len(CC), ordmax),
+        if len(AA) != nent or len(CC) != nent:
+            ctx.fail("oracle", "%s(ordmax=%d, step=%d) returns %d/%d matrices, one per order 0, %d, .. <= %d expected (%d)" % (name, ordmax, step, len(AA), len(CC), step, ordmax, nent),
                      small, key="C01:%s:list-length" % name)
             return
-    for nn in (range(1, min(n, ordmax) + 1) if fam == "svd" else [n]):
+        for k in range(nent):
+            Ak, Ck = np.asarray(AA[k]), np.asarray(CC[k])
+            if Ak.shape != (k * step, k * step) or Ck.shape != (l, k * step):
+                ctx.fail("oracle", "%s(ordmax=%d, step=%d): entry %d must be the realisation of model order %d (A %dx%d, C %dx%d), got A%s C%s"
+                         % (name, ordmax, step, k, k * step, k * step, k * step, l, k * step, Ak.shape, Ck.shape), dict(small, entry=k),
+                         key="C01:%s:shape" % name)
+                return
+    grid = [nn for nn in range(step, min(n, ordmax) + 1, step)]
+    # both routines agree with each other at every returned order (same least-squares problem on the same singular vectors)
+    if len(routines) == 2:
+        for nn in grid:
+            if nn < n and not s[nn - 1] > 1.2 * s[nn]:
+                continue
+            Wf = shift_of_pair(np.asarray(routines[0][1][nn // step]), np.asarray(routines[0][2][nn // step]), l, br)
+            Wl = shift_of_pair(np.asarray(routines[1][1][nn // step]), np.asarray(routines[1][2][nn // step]), l, br)
+            if Wf is not None and Wl is not None and not np.allclose(Wf, Wl, rtol=0, atol=TOL_STAGE * max(1.0, np.abs(Wl).max())):
+                ctx.fail("correspondence", "SSI_fast and SSI disagree at model order %d (step=%d): shift operators differ by %.3g" % (nn, step, np.abs(Wf - Wl).max()),
+                         dict(small, order=nn), key="C01:SSI_fast-vs-SSI:order")
+    for nn in (grid if fam == "svd" else [n] if n in grid else []):
         if fam == "svd":
             exprs.append("show_pair %d %s" % (l, qc_mat([row[:nn] for row in Uq])))
         else:
             exprs.append("show_pair %d %s" % (l, qc_mat(O)))
         per = []
         for name, AA, CC in routines:
-            An, Cn = np.asarray(AA[nn]), np.asarray(CC[nn])
-            if An.shape != (nn, nn) or Cn.shape != (l, nn):
-                ctx.fail("oracle", "%s order %d: A%s C%s, expected (%d,%d) and (%d,%d): C_n must hold the l rows of the first block"
-                         % (name, nn, An.shape, Cn.shape, nn, nn, l, nn), dict(small, order=nn), key="C01:%s:shape" % name)
-                per.append((name, None))
-                continue
+            An, Cn = np.asarray(AA[nn // step]), np.asarray(CC[nn // step])
             per.append((name, shift_of_pair(An, Cn, l, br)))
             if fam == "product":
                 # ---- oracle: the realisation step alone recovers the poles and shapes of the true system (property text)
@@ -279,7 +321,7 @@ def stage_realise_case(ctx, case, exprs, meta):
                         bad = "shape of pole %s has MAC %.12f with the true shape" % (lt, m_)
                         break
                 if bad:
-                    ctx.fail("oracle", "%s on an exact rank-%d Hankel product, order %d: %s" % (name, n, n, bad), dict(small, order=nn),
+                    ctx.fail("oracle", "%s on an exact rank-%d Hankel product, order %d (step=%d): %s" % (name, n, n, step, bad), dict(small, order=nn),
                              key="C01:%s:exact-recovery" % name)
                 # span of the rebuilt observability matrix = span of O
                 Oh = obs_matrix(An, Cn, br + 1)
@@ -459,7 +501,11 @@ def stage_ac2mp(ctx, cases):
         ctx.hist("ac2mp.kind", case["kind"])
         ctx.hist("ac2mp.shape(n,l)", (case["n"], case["l"]))
         A0, C0 = A.copy(), C.copy()
-        fn, xi, phi, lam_c, *_ = ssi.ac2mp(A, C, dt)
+        ro(A, case.get("readonly")), ro(C, case.get("readonly"))
+        ok, out = guarded(ctx, "ac2mp", lambda: ssi.ac2mp(A, C, dt), case, "C01:ac2mp")
+        if not ok:
+            continue
+        fn, xi, phi, lam_c, *_ = out
         if not (same_arrays(A, A0) and same_arrays(C, C0)):
             ctx.fail("oracle", "ac2mp modified the matrices it was given", case, key="C01:ac2mp:input-modified")
             continue
@@ -513,7 +559,12 @@ def stage_poles(ctx, cases):
         ctx.hist("poles.shape(ordmax,l)", (ordmax, l))
         small = dict(kind="SSI_poles", ordmax=ordmax, l=l, dt=dt, orders=case["orders"])
         AA0, CC0 = [x.copy() for x in AA], [x.copy() for x in CC]
-        Fn, Xi, Phi, Lam, *_ = ssi.SSI_poles(None, AA, CC, ordmax, dt)
+        for x in AA + CC:
+            ro(x, case.get("readonly"))
+        ok, out = guarded(ctx, "SSI_poles", lambda: ssi.SSI_poles(None, AA, CC, ordmax, dt), small, "C01:SSI_poles")
+        if not ok:
+            continue
+        Fn, Xi, Phi, Lam, *_ = out
         if not (len(AA) == len(AA0) and len(CC) == len(CC0) and all(same_arrays(x, y) for x, y in zip(AA + CC, AA0 + CC0))):
             ctx.fail("oracle", "SSI_poles modified the lists of matrices it was given", small, key="C01:SSI_poles:input-modified")
             continue
@@ -579,7 +630,7 @@ def e2e_case(ctx, case):
         variants.append((SSIcov, "cov_mm", case["unc"]))
     for cls, method, unc in variants:
         cs = dict(case, method=method, calc_unc=bool(unc))
-        data = Y.copy()
+        data = ro(Y.copy(), case.get("readonly"))
         ss = SingleSetup(data, fs=fs)
         forms = case.get("forms") or {}
         if forms.get("fs_int") and float(fs).is_integer():
@@ -604,7 +655,9 @@ def e2e_case(ctx, case):
         alg = cls(name="a", method=method, **kw) if cls is SSIcov else cls(name="a", **kw)
         ss.add_algorithms(alg)
         try:
-            ss.run_by_name("a")
+            ok, _ = guarded(ctx, "%s.run (SingleSetup.run_by_name)" % cls.__name__, lambda: ss.run_by_name("a"), cs, key)
+            if not ok:
+                continue
         except np.linalg.LinAlgError:
             if unc and ordmax > 2 * m:
                 # unchanged tree: the sensitivity of a singular vector whose singular value is at rounding level (orders above 2m on
@@ -824,7 +877,98 @@ def gen_e2e_case(rng, mmax, k):
     forms = dict(key_order=int(rng.integers(0, 1000)) if k % 2 else 0, int_values=bool(k % 4 >= 2), sc=bool(k % 3 == 0), br_float=bool(k % 7 == 5),
                  fs_int=bool(k % 2 == 0))
     return dict(fn=[float(f) for f in fn], xi=xi.tolist(), phi=[[[z.real, z.imag] for z in row] for row in phi], amp=[[z.real, z.imag] for z in amp],
-                fs=fs, N=N, br=br, ref=ref, ordmax=ordmax, hc=hc, cplx=cplx, req=req, forms=forms, unc=unc)
+                fs=fs, N=N, br=br, ref=ref, ordmax=ordmax, hc=hc, cplx=cplx, req=req, forms=forms, unc=unc, readonly=bool(k % 3 == 0))
+
+
+# ------------------------------------------------------------------------------------------------ stage (i''): step on data Hankels
+def step_data_case(ctx, case):
+    """Both realisation routines called directly with the public keyword step on the moment-matrix Hankel of a noise-free free decay:
+    entry k of the returned lists is the realisation of model order k*step; at order 2m (when on the step grid) it holds the m true
+    pole pairs and shapes; the two routines agree at every returned order."""
+    fn, xi = np.array(case["fn"]), np.array(case["xi"])
+    phi = np.array([[complex(z[0], z[1]) for z in row] for row in case["phi"]])
+    amp = np.array([complex(z[0], z[1]) for z in case["amp"]])
+    fs, N, br, ref, ordmax, step = case["fs"], case["N"], case["br"], case["ref"], case["ordmax"], case["step"]
+    m, l = len(fn), phi.shape[0]
+    Y, lam = free_decay(fn, xi, phi, amp, fs, N)
+    YT, Yr = ro(np.ascontiguousarray(Y.T), case.get("readonly")), ro(np.ascontiguousarray(Y.T[ref, :]), case.get("readonly"))
+    ok, out = guarded(ctx, "build_hank", lambda: ssi.build_hank(YT, Yr, br, "cov_mm"), case, "C01:build_hank")
+    if not ok:
+        return
+    H = out[0]
+    s = np.linalg.svd(H, compute_uv=False)
+    cond = s[0] / s[2 * m - 1]
+    if not cond < COND_E2E:
+        nj(ctx, "step: Hankel conditioning")
+        return
+    tol = tol_e2e(cond)
+    ctx.count(dict(kind_="step-data", **case), nontrivial=(step > 1))
+    ctx.hist("step-data.(step, ordmax mod step, 2m on grid)", (step, ordmax % step, (2 * m) % step == 0 and 2 * m <= ordmax))
+    H0 = H.copy()
+    ro(H, case.get("readonly"))
+    nent = ordmax // step + 1
+    got = {}
+    for name, call in (("SSI_fast", lambda: ssi.SSI_fast(H, br, ordmax, step=step)[1:3]), ("SSI", lambda: ssi.SSI(H, br, ordmax, step=step)[0:2])):
+        cs = dict(case, routine=name)
+        ok, out = guarded(ctx, name, call, cs, "C01:%s" % name)
+        if not ok:
+            continue
+        AA, CC = out
+        if not same_arrays(H, H0):
+            ctx.fail("oracle", "%s modified the Hankel matrix it was given" % name, cs, key="C01:%s:input-modified" % name)
+            return
+        if len(AA) != nent or len(CC) != nent:
+            ctx.fail("oracle", "%s(ordmax=%d, step=%d) returns %d/%d matrices, one per order 0, %d, .. <= %d expected (%d)" % (name, ordmax, step, len(AA), len(CC), step, ordmax, nent),
+                     cs, key="C01:%s:list-length" % name)
+            continue
+        bad = [k for k in range(nent) if np.asarray(AA[k]).shape != (k * step, k * step) or np.asarray(CC[k]).shape != (l, k * step)]
+        if bad:
+            k = bad[0]
+            ctx.fail("oracle", "%s(ordmax=%d, step=%d) on a data Hankel: entry %d must be the realisation of model order %d (A %dx%d), got A%s C%s"
+                     % (name, ordmax, step, k, k * step, k * step, k * step, np.asarray(AA[k]).shape, np.asarray(CC[k]).shape), dict(cs, entry=k),
+                     key="C01:%s:shape" % name)
+            continue
+        got[name] = (AA, CC)
+        if (2 * m) % step == 0 and 2 * m <= ordmax:
+            An, Cn = np.asarray(AA[2 * m // step]), np.asarray(CC[2 * m // step])
+            w, v = np.linalg.eig(An)
+            shp = Cn @ v
+            worst, what = 0.0, ""
+            for j in range(m):
+                i = int(np.argmin(np.abs(w - np.exp(lam[j] / fs))))
+                lc = np.log(w[i]) * fs
+                f, x = abs(lc) / (2 * np.pi), -lc.real / abs(lc)
+                e = max(abs(f - fn[j]) / fn[j], abs(x - xi[j]), 1 - mac(shp[:, i], phi[:, j]))
+                if e > worst:
+                    worst, what = e, "mode %d: identified fn=%.9g xi=%.6g, true fn=%.9g xi=%.6g, 1-MAC %.3g" % (j, f, x, fn[j], xi[j], 1 - mac(shp[:, i], phi[:, j]))
+            if not worst <= tol:
+                ctx.fail("oracle", "%s(ordmax=%d, step=%d) on the Hankel matrix of a noise-free decay with %d modes: the entry of order %d: %s" % (name, ordmax, step, m, 2 * m, what),
+                         cs, key="C01:%s:step-exact-recovery" % name)
+    if len(got) == 2:
+        for k in range(1, nent):
+            nn = k * step
+            if nn > 2 * m or (nn < 2 * m and not s[nn - 1] > 1.2 * s[nn]):
+                continue
+            Wf = shift_of_pair(np.asarray(got["SSI_fast"][0][k]), np.asarray(got["SSI_fast"][1][k]), l, br)
+            Wl = shift_of_pair(np.asarray(got["SSI"][0][k]), np.asarray(got["SSI"][1][k]), l, br)
+            if Wf is not None and Wl is not None and not np.allclose(Wf, Wl, rtol=0, atol=max(TOL_STAGE, 10 * tol) * max(1.0, np.abs(Wl).max())):
+                ctx.fail("correspondence", "SSI_fast and SSI disagree at model order %d (step=%d) on a data Hankel: shift operators differ by %.3g" % (nn, step, np.abs(Wf - Wl).max()),
+                         dict(case, order=nn), key="C01:SSI_fast-vs-SSI:order")
+
+
+def gen_step_data_case(rng, k):
+    m = int(rng.integers(1, 4))
+    l = int(rng.integers(2, 6))
+    fs = float(FS_LIST[int(rng.integers(0, len(FS_LIST)))])
+    fn, xi, phi, amp = modal_system(rng, m, l, fs, bool(k % 2))
+    nref = int(rng.integers(1, l + 1))
+    ref = sorted(rng.choice(l, size=nref, replace=False).tolist())
+    step = [1, 2, 3][k % 3]
+    ordmax = 2 * m + int(rng.integers(0, 4))  # a multiple of step or not
+    br = max(-(-ordmax // nref) - 1, -(-2 * m // l)) + int(rng.integers(1, 4))
+    N = int(rng.integers(60 + 2 * br + 2 * (br + 1) * (nref + l), 900))
+    return dict(fn=[float(f) for f in fn], xi=xi.tolist(), phi=[[[z.real, z.imag] for z in row] for row in phi], amp=[[z.real, z.imag] for z in amp],
+                fs=fs, N=N, br=br, ref=ref, ordmax=ordmax, step=step, readonly=bool(k % 2 == 0))
 
 
 # ------------------------------------------------------------------------------------------------ stage (i'): graded conditioning
@@ -886,12 +1030,16 @@ def graded_case(ctx, case):
     ctx.count(dict(kind_="graded", **case), nontrivial=True)
     ctx.hist("graded.log10(ratio)", int(np.floor(np.log10(ratio))))
     H0 = H.copy()
+    ro(H, case.get("readonly"))
     for name, call in (("SSI_fast", lambda: ssi.SSI_fast(H, br, n)[1:3]), ("SSI", lambda: ssi.SSI(H, br, n)[0:2])):
-        AA, CC = call()
         key = "C01:%s" % name
+        ok, out = guarded(ctx, name, call, dict(case, routine=name), key)
+        if not ok:
+            continue
+        AA, CC = out
         if not same_arrays(H, H0):
             ctx.fail("oracle", "%s modified the Hankel matrix it was given" % name, dict(case, routine=name), key=key + ":input-modified")
-            H = H0.copy()
+            H = ro(H0.copy(), case.get("readonly"))
             continue
         AA2, CC2 = call()
         if not (len(AA) == len(AA2) and all(same_arrays(x, y) for x, y in zip(list(AA) + list(CC), list(AA2) + list(CC2)))):
@@ -933,10 +1081,10 @@ def run(ctx):
         "multiplicity (exactly m pairs at order 2m) and the nearest-pole extraction are checked by the oracle on the implementation only (C01_full_statement)",
     ]
     # ---- corpus first
-    stage_c, ac_c, pol_c, e2e_c, gr_c = [], [], [], [], []
+    stage_c, ac_c, pol_c, e2e_c, gr_c, sd_c = [], [], [], [], [], []
     for path in sorted(glob.glob(os.path.join(VERIF, "corpus", "C01", "*.json"))):
         d = json.load(open(path))
-        {"realise": stage_c, "ac2mp": ac_c, "poles": pol_c, "e2e": e2e_c, "graded": gr_c}[d["stage"]].append(d["case"])
+        {"realise": stage_c, "ac2mp": ac_c, "poles": pol_c, "e2e": e2e_c, "graded": gr_c, "step-data": sd_c}[d["stage"]].append(d["case"])
     # ---- (i) realisation stage
     shapes = [(2, 2, 1, 3), (2, 3, 1, 2), (4, 3, 2, 2), (4, 2, 1, 4), (3, 2, 3, 2), (6, 3, 2, 3), (4, 4, 1, 2), (6, 2, 1, 6)]
     if not ctx.quick():
@@ -946,16 +1094,33 @@ def run(ctx):
         for (n, l, r, br) in shapes:
             if br * l < n or (br + 1) * r < n:
                 continue
-            stage_c.append(gen_stage_case(rng, n, l, r, br, extra=rep))
-            stage_c.append(gen_svd_case(rng, n, l, r, br, extra=rep))
+            stage_c.append(dict(gen_stage_case(rng, n, l, r, br, extra=rep), readonly=bool(rep % 2)))
+            stage_c.append(dict(gen_svd_case(rng, n, l, r, br, extra=rep), readonly=bool(rep % 2 == 0)))
+    # the public keyword step of both routines (function level only: through the setup classes step > 1 is not usable on the unchanged tree):
+    # ordmax a multiple of step and not, the rank on the step grid and not
+    step_shapes = [(4, 3, 2, 2), (6, 3, 2, 3), (2, 2, 3, 1), (4, 2, 1, 4), (6, 2, 3, 4), (3, 2, 3, 2)]
+    if not ctx.quick():
+        step_shapes += [(6, 4, 2, 3), (8, 3, 4, 3), (5, 3, 2, 3), (4, 5, 1, 4), (6, 2, 1, 6), (8, 5, 2, 3)]
+    for rep in range(ctx.n(1, 3)):
+        for i, (n, l, r, br) in enumerate(step_shapes):
+            for step in (2, 3):
+                extra = (i + rep + step) % 3
+                stage_c.append(dict(gen_stage_case(rng, n, l, r, br, extra=extra), step=step, readonly=bool((i + step) % 2)))
+                stage_c.append(dict(gen_svd_case(rng, n, l, r, br, extra=extra), step=step, readonly=bool((i + step + 1) % 2)))
     t0 = time.time()
     stage_realise(ctx, stage_c)
     walls = {"realise": round(time.time() - t0, 1)}
     t0 = time.time()
+    # ---- (i'') step on data Hankels, both routines, function level
+    sd_c += [gen_step_data_case(rng, k) for k in range(ctx.n(36, 360))]
+    for case in sd_c:
+        step_data_case(ctx, case)
+    walls["step-data"] = round(time.time() - t0, 1)
+    t0 = time.time()
     # ---- (i') realisation stage, graded conditioning (singular-value ratios 1e2 .. 1e8), both routines, oracle
     ng = ctx.n(48, 600)
     for k in range(ng):
-        gr_c.append(gen_graded_case(rng, 10 ** (2 + 6 * (k + rng.uniform(0, 1)) / ng)))
+        gr_c.append(dict(gen_graded_case(rng, 10 ** (2 + 6 * (k + rng.uniform(0, 1)) / ng)), readonly=bool(k % 2)))
     for case in gr_c:
         graded_case(ctx, case)
     walls["graded"] = round(time.time() - t0, 1)
@@ -963,13 +1128,13 @@ def run(ctx):
     # ---- (ii) ac2mp
     kinds = ["plain"] * 8 + ["zero-row", "unstable", "tie", "zero-shape"]
     for k in range(ctx.n(96, 1200)):
-        ac_c.append(gen_ac2mp_case(rng, kinds[k % len(kinds)]))
+        ac_c.append(dict(gen_ac2mp_case(rng, kinds[k % len(kinds)]), readonly=bool(k % 3 == 1)))
     stage_ac2mp(ctx, ac_c)
     walls["ac2mp"] = round(time.time() - t0, 1)
     t0 = time.time()
     # ---- (iii) SSI_poles
     for k in range(ctx.n(12, 120)):
-        pol_c.append(gen_poles_case(rng, int(rng.integers(1, ctx.n(6, 9))), int(rng.integers(1, 5))))
+        pol_c.append(dict(gen_poles_case(rng, int(rng.integers(1, ctx.n(6, 9))), int(rng.integers(1, 5))), readonly=bool(k % 2)))
     stage_poles(ctx, pol_c)
     walls["poles"] = round(time.time() - t0, 1)
     t0 = time.time()
